@@ -1,7 +1,8 @@
 (* Correspondence checker for the `pubsub` driver: sequential histories on the real memEventBus /
    EventSystem against the sequential runs of the transition systems (Model/PubSub.v, Model/FilterSys.v),
    and the deterministic replay of the uninstall-during-send schedule. *)
-From Evm Require Import Conc PubSub FilterSys CorrBase.
+From Evm Require Import Conc PubSub FilterSys Total TotalProofs CorrBase.
+Local Open Scope nat_scope.
 
 Fixpoint ins (x : nat) (l : list nat) : list nat :=
   match l with [] => [x] | h :: t => if Nat.leb x h then x :: l else h :: ins x t end.
@@ -52,13 +53,16 @@ Definition replay_model : bool * bool :=
 Inductive pcase :=
 | PBus (ops : list op) (obs : list snap)
 | PFs (ops : list fop) (obs : list (list fobs * bool))
-| PReplay (completed_during_pause crashed : bool).
+| PReplay (completed_during_pause crashed : bool)
+(* a Tx event for a decodable transaction delivered to an installed pending-transaction filter *)
+| PPending (has_msgs valid_basic : bool) (survived : bool).
 
 Definition ps_ok (c : pcase) : bool :=
   match c with
   | PBus ops obs => list_eqb snap_eqb (run_ops ps_init ops) obs
   | PFs ops obs => list_eqb fsnap_eqb (frun true fs_init ops) obs
   | PReplay a b => Bool.eqb (fst replay_model) a && Bool.eqb (snd replay_model) b
+  | PPending hm vb survived => Bool.eqb survived (negb (is_crash (rpc_pending true hm true vb)))
   end.
 
 Definition ps_mismatches (off : nat) (l : list pcase) : list nat := mism ps_ok off l.
